@@ -5,7 +5,7 @@
      (np_inrange s1 s2)             -> (ok true|false) | (noparse) | (panic)
      (np_display_extn fn (a ...))   -> (ok str) | (panic)                                                     *)
 From Coq Require Import String.
-From Cedar Require Export NoPanic Codec.
+From Cedar Require Export NoPanic NoPanicUtf8 Codec.
 Open Scope string_scope.
 
 Definition e_pres {A} (f : A -> sexp) (r : pres A) : sexp :=
@@ -45,7 +45,7 @@ Definition run_np_like (args : list sexp) : sexp :=
 
 Definition run_np_inrange (args : list sexp) : sexp :=
   match args with
-  | [SS a; SS b] => match ip_in_range_strs a b with
+  | [SS a; SS b] => match ip_in_range_strs_checked a b with
                     | POk (Some r) => e_tag "ok" [e_bool r]
                     | POk None => e_tag "noparse" []
                     | Panic _ => e_tag "panic" []
@@ -62,10 +62,18 @@ Definition run_np_display_extn (args : list sexp) : sexp :=
   | _ => bad_input
   end.
 
+(* (np_two s c): contains_at_least_two at byte level *)
+Definition run_np_two (args : list sexp) : sexp :=
+  match args with
+  | [SS s; SI c] => e_pres e_bool (contains_at_least_two_checked s (Z.to_N c))
+  | _ => bad_input
+  end.
+
 Definition run_nopanic (cmd : string) (args : list sexp) : option sexp :=
   if sym_eqb cmd "np_fuzzy" then Some (run_np_fuzzy args)
   else if sym_eqb cmd "np_lev" then Some (run_np_lev args)
   else if sym_eqb cmd "np_like" then Some (run_np_like args)
   else if sym_eqb cmd "np_inrange" then Some (run_np_inrange args)
   else if sym_eqb cmd "np_display_extn" then Some (run_np_display_extn args)
+  else if sym_eqb cmd "np_two" then Some (run_np_two args)
   else None.
